@@ -19,7 +19,9 @@ for prop in sorted(os.listdir(SRC)):
         continue
     for m in sorted(os.listdir(d)):
         pf = os.path.join(d, m, "patch.diff")
-        if not os.path.exists(pf):
+        if not os.path.exists(pf) or not os.path.exists(os.path.join(d, m, "meta.json")):
+            continue
+        if os.environ.get("EVAL_SKIP_DONE") == "1" and f"{prop}/{m}" in ev:
             continue
         assert clean(), "repo dirty"
         ap = subprocess.run(["git", "-C", "/repo", "apply", pf], capture_output=True, text=True)
